@@ -98,6 +98,10 @@ func checkC19(c *c19Case) (msg string, nontrivial bool, labels []string) {
 	old := runtime.GOMAXPROCS(c.Procs)
 	defer runtime.GOMAXPROCS(old)
 	shared := lib.NewStore(c.Pairs)
+	// the store all readers share hands out the same slices to every one of
+	// them: a statement that writes into what it was handed writes into the
+	// others' data (and into the storage)
+	shared.Shared = true
 	n := len(c.Queries)
 	storeFor := func(i int) *lib.Store {
 		if c.Writers[i] {
@@ -144,6 +148,9 @@ func checkC19(c *c19Case) (msg string, nontrivial bool, labels []string) {
 		if c.Writers[i] {
 			seq[i].store = fmt.Sprint(st.Pairs())
 		}
+	}
+	if m := shared.MemoryIntact(); m != "" {
+		return fmt.Sprintf("after %d statements over one store (GOMAXPROCS %d): %s", n, c.Procs, m), nontrivial, labels
 	}
 	for rep, outs := range all {
 		for i := range outs {
